@@ -23,6 +23,15 @@ class HarnessError(Exception):
     """machinery failure: exit code 2, never a VIOLATION"""
 
 
+# two-pass thorough runs (vf/cli.py): the thorough tier of the family-based properties first runs the complete quick
+# tier (so that thorough dominates quick whatever the budget), then spends its wall-time budget on the deeper bounds
+STASH = None          # list while the first pass runs: finish() parks its obligations here instead of reporting
+PRE = []              # obligations of the first pass, merged into the final report
+PRE_ERRORS = []
+DONE = set()          # ids discharged by the first pass: not dispatched again
+REPLAY_OFFSET = 0     # replay file numbers of the second pass start here
+
+
 def workdir(name, fresh=True):
     d = os.path.join(WORK, name)
     if fresh and os.path.isdir(d):
@@ -89,7 +98,7 @@ def match_known(prop, signature, findings):
 
 def write_replay(prop, n, payload):
     os.makedirs(REPLAYS, exist_ok=True)
-    p = os.path.join(REPLAYS, '%s-%03d.json' % (prop, n))
+    p = os.path.join(REPLAYS, '%s-%03d.json' % (prop, n + REPLAY_OFFSET))
     with open(p, 'w') as f:
         json.dump(payload, f, indent=1, sort_keys=True, default=str)
     return p
@@ -98,6 +107,21 @@ def write_replay(prop, n, payload):
 def finish(prop, tier, obligations, t0, level='model_checking', functions=(), bounds=None, assumptions=(),
            rule='', extra=None, errors=()):
     """Write evidence, print VIOLATION / KNOWN-FINDING lines, return the exit code."""
+    if STASH is not None:
+        # first pass of a two-pass thorough run: park the results, the second pass reports everything
+        for o in obligations:
+            if not (o.verdict == INCONCLUSIVE and (o.detail or '').startswith('not explored')):
+                STASH.append(o)
+        PRE_ERRORS.extend(str(e) for e in errors)
+        return 0
+    if PRE:
+        for o in PRE:
+            o.desc = dict(o.desc or {}, **{'pass': 'quick-tier pass of the thorough run'})
+        mine = set(o.oid for o in obligations)
+        obligations = [o for o in PRE if o.oid not in mine] + list(obligations)
+        errors = list(PRE_ERRORS) + list(errors)
+        extra = dict(extra or {}, two_pass='the complete quick tier (%d obligations) ran first, then the wall-time budget was spent on the thorough bounds; '
+                                          'obligations discharged by the first pass are not dispatched again' % len(PRE))
     findings = load_known_findings()
     viol = [o for o in obligations if o.verdict == VIOLATED]
     unknown_viol = []
@@ -115,6 +139,11 @@ def finish(prop, tier, obligations, t0, level='model_checking', functions=(), bo
         print('  obligation %s: %s' % (o.oid, o.detail[:400]))
         if o.signature:
             print('  signature %s' % json.dumps(o.signature, sort_keys=True))
+    # obligations the wall-time budget of the run did not reach are reported as such, not as evaluated obligations
+    skipped = [o for o in obligations if o.verdict == INCONCLUSIVE and (o.detail or '').startswith('not explored')]
+    if skipped:
+        sk = set(id(o) for o in skipped)
+        obligations = [o for o in obligations if id(o) not in sk]
     inconcl = [o for o in obligations if o.verdict == INCONCLUSIVE]
     errs = [o for o in obligations if o.verdict == ERROR]
     disch = [o for o in obligations if o.verdict == DISCHARGED]
@@ -153,6 +182,10 @@ def finish(prop, tier, obligations, t0, level='model_checking', functions=(), bo
             z3_4_8_12_unsat=sum(x['z3_4_8_12']['unsat'] for x in xcs), z3_4_8_12_inconclusive=sum(x['z3_4_8_12']['inconclusive'] for x in xcs),
             cvc5_1_0_3_unsat=sum(x['cvc5_1_0_3']['unsat'] for x in xcs), cvc5_1_0_3_inconclusive=sum(x['cvc5_1_0_3']['inconclusive'] for x in xcs),
             disagreements=sum(x['disagreements'] for x in xcs))
+    if skipped or budget_s():
+        cov['wall_time_budget'] = dict(budget_s=budget_s(), generated_but_not_explored=len(skipped),
+                                       note='queries are generated for the whole bound and explored most-expensive / rotated first until the budget is used; '
+                                            'the rest is outside this run (raise VF_BUDGET_S to go further); VERIF_SEED rotates the start')
     if extra:
         cov.update(extra)
     ev = dict(property_id=prop, tier=tier, seed=seed(), level=level, coverage=cov, assumptions=list(assumptions),
@@ -164,9 +197,9 @@ def finish(prop, tier, obligations, t0, level='model_checking', functions=(), bo
         target = os.path.join(WORK, 'dev-evidence-%s.json' % prop)     # partial / scratch-tree development runs never touch evidence/
     with open(target, 'w') as f:
         json.dump(ev, f, indent=1, sort_keys=True, default=str)
-    print('%s %s: obligations=%d discharged=%d violated=%d (known %d) inconclusive=%d errors=%d paths=%d wall=%.1fs' % (
+    print('%s %s: obligations=%d discharged=%d violated=%d (known %d) inconclusive=%d errors=%d paths=%d wall=%.1fs%s' % (
         prop, tier, len(obligations), len(disch), len(viol), len(viol) - len(unknown_viol), len(inconcl),
-        len(errs) + len(errors), cov['paths_explored'], time.time() - t0))
+        len(errs) + len(errors), cov['paths_explored'], time.time() - t0, (' not-reached-within-budget=%d' % len(skipped)) if skipped else ''))
     if errs or errors:
         for o in errs[:10]:
             print('HARNESS-ERROR %s: %s' % (o.oid, o.detail[:500]), file=sys.stderr)
@@ -214,7 +247,7 @@ def budget_s():
     if v is not None:
         total = float(v)
     elif os.environ.get('VF_TIER') == 'thorough':
-        total = 1500.0
+        total = 600.0
     else:
         return None
     if total <= 0:
@@ -223,7 +256,10 @@ def budget_s():
 
 
 def only(conds):
-    """development aid: VF_ONLY=<substring> restricts a run to the obligations whose id contains it"""
+    """development aid: VF_ONLY=<substring> restricts a run to the obligations whose id contains it.
+    Second pass of a two-pass thorough run: obligations already discharged by the first (quick-tier) pass are dropped."""
+    if DONE:
+        conds = [c for c in conds if c.oid not in DONE and not (getattr(c, 'twin', False) and c.desc.get('twin_of') in DONE)]
     pat = os.environ.get('VF_ONLY')
     if not pat:
         return conds
